@@ -187,3 +187,265 @@ def frame_obligations(eng, want=("lemmas", "get_address", "init", "append", "val
     obls.append(Obligation("canary.payload_off_by_one", [nn >= 0, cp != -1, nn > cp + 4], arr[cp + 3] == arr[cp + 4], kind="canary", expect_refuted=True))
     obls.append(Obligation("canary.valid_frame_without_length_check", [nn >= 2, S.FOLD(arr, 0, nn) == 0xF0B8], S.valid_frame(arr, nn), kind="canary", expect_refuted=True))
     return obls
+
+# ----------------------------------------------------------------------------- reader
+CONFIGS = [(False, False), (False, True), (True, False), (True, True)]
+R = H + "HdlcFrameReader."
+G = z3.Const("G", BYTE_ARR)     # ghost: the whole input stream; the chunks given to read() are its consecutive segments
+def cfg_label(cfg, in_frame): return f"stuff={int(cfg[0])},abort={int(cfg[1])},{'frame' if in_frame else 'hunt'}"
+
+def mk_reader(st, cfg, in_frame, tag="", eng=None):
+    bn = z3.Int("bn" + tag); bpos = z3.Int("bpos" + tag)
+    rarr = z3.Const("raw" + tag, BYTE_ARR); rn = z3.Int("rn" + tag); esc = z3.Bool("esc" + tag)
+    gt = z3.Int("g_total" + tag); gle = z3.Int("g_last_end" + tag)
+    if eng is not None:
+        for v in (bn, rn, gt):
+            if not any(str(v) == str(x) for x in eng.len_vars): eng.len_vars.append(v)
+    # ghost representation of "the unconsumed input is the tail of the stream received so far": the buffer is a view on G ending at g_total
+    buf = st.new_obj(H + "_ReaderBuffer", {"_buffer": SBytes(G, bn, gt - bn), "_buffer_pos": SInt(bpos)})
+    rd = st.new_obj(R[:-1], {"_use_octet_stuffing": cfg[0], "_use_abort_sequence": cfg[1], "_unescape_next": SBool(esc),
+                             "_buffer": buf, "_raw_frame_data": SBytes(rarr, rn), "_frame": None, "$g_total": SInt(gt), "$g_last_end": SInt(gle)})
+    if in_frame:
+        fr, hd, ffc, arr, nn = mk_frame(st, tag=tag, inv=True, eng=eng)
+        st.setf(rd, "_frame", fr)
+    return rd, buf
+
+def reader_view(st, rd):
+    buf = st.getf(rd, "_buffer"); b = st.getf(buf, "_buffer"); bp = to_int(st.getf(buf, "_buffer_pos"))
+    raw = st.getf(rd, "_raw_frame_data"); esc = to_bool(st.getf(rd, "_unescape_next")); fr = st.getf(rd, "_frame")
+    gt = to_int(st.getf(rd, "$g_total")); gle = to_int(st.getf(rd, "$g_last_end"))
+    pl = b.n - bp
+    return dict(buf=buf, b=b, bp=bp, raw=raw, esc=esc, fr=fr, gt=gt, gle=gle, pl=pl, gp=gt - pl)
+
+def reader_inv(st, rd, completed=False, allow_overlong=False):
+    """list of (name, z3 Bool).  completed=True: the state right after _read_next returned True (closing flag consumed, frame still current)"""
+    v = reader_view(st, rd); k = z3.Int("k__r"); cfg0 = st.getf(rd, "_use_octet_stuffing")
+    b, bp, raw, esc, fr, gt, gle, pl, gp = v["b"], v["bp"], v["raw"], v["esc"], v["fr"], v["gt"], v["gle"], v["pl"], v["gp"]
+    goals = [("buffer position in range", z3.And(bp >= 0, bp <= b.n, b.n >= 0)),
+             ("C19: len(raw frame data) <= 2*2048+1", z3.And(raw.n >= 0, raw.n <= 4097)),
+             ("ghost: unconsumed input is the tail of the stream received so far", z3.And(gt >= pl, z3.Or(pl == 0, z3.And(z3.BoolVal(b.arr.eq(G)), b.off + b.n == gt)))),
+             ("ghost: last returned frame ended inside the consumed stream", z3.And(gle >= -1, gle < gp))]
+    if fr is None:
+        goals.append(("hunt mode => no pending escape", z3.Not(esc)))
+        return goals
+    d, ffc, hd = frame_parts(st, fr)
+    goals.append(("frame_inv(current frame)", frame_inv_z3(st, fr)))
+    if not allow_overlong: goals.append(("len(octets) <= 2047", d.n <= 2047))
+    goals.append(("raw view starts at 0", z3.And(raw.off == 0, raw.n >= 0)))
+    if not cfg0:
+        goals.append(("octets == raw (no stuffing)", z3.And(d.n == raw.n, z3.ForAll([k], z3.Implies(z3.And(0 <= k, k < d.n), d.at(k) == raw.at(k))))))
+        goals.append(("no pending escape without stuffing", z3.Not(esc)))
+    else:
+        goals.append(("(len(octets), pending escape) == unstuff(raw)", z3.And(d.n == S.CNT(raw.arr, raw.n), esc == S.ESC(raw.arr, raw.n))))
+        goals.append(("octets == unstuff(raw) content", z3.ForAll([k], z3.Implies(z3.And(0 <= k, k < d.n), d.at(k) == S.U(raw.arr, raw.n, k)))))
+    e = gp - 1 if completed else gp            # index just after the raw octets of the current frame
+    s0 = e - raw.n                            # index of its first raw octet
+    goals.append(("ghost: raw octets are contiguous in the stream, right after a flag", z3.And(s0 >= 1, G[s0 - 1] == 0x7E,
+                  z3.ForAll([k], z3.Implies(z3.And(0 <= k, k < raw.n), raw.at(k) == G[s0 + k])))))
+    goals.append(("ghost: current frame starts after the end of the last returned frame", s0 - 1 >= gle))
+    if completed: goals.append(("ghost: closing flag", G[e] == 0x7E))
+    return goals
+
+def assume_inv(st, rd, **kw):
+    for _, g in reader_inv(st, rd, **kw): st.pc.append(g)
+
+def reader_witness(eng, cfg, in_frame, tag="", extra=()):
+    def w(m):
+        ev = lambda t: m.eval(t, model_completion=True)
+        def arr_bytes(arr, n, off=0, cap=6000): return [ev(arr[off + q]).as_long() for q in range(max(0, min(n, cap)))]
+        bn = ev(z3.Int("bn" + tag)).as_long(); rn = ev(z3.Int("rn" + tag)).as_long(); gt = ev(z3.Int("g_total" + tag)).as_long()
+        d = {"cfg": list(cfg), "in_frame": in_frame, "buffer": arr_bytes(G, bn, gt - bn), "pos": ev(z3.Int("bpos" + tag)).as_long(),
+             "raw": arr_bytes(z3.Const("raw" + tag, BYTE_ARR), rn), "esc": z3.is_true(ev(z3.Bool("esc" + tag))),
+             "g_total": gt, "g_last_end": ev(z3.Int("g_last_end" + tag)).as_long(), "G": arr_bytes(G, gt + 4)}
+        if in_frame:
+            nn = ev(z3.Int("n" + tag)).as_long(); d["octets"] = arr_bytes(z3.Const("data" + tag, BYTE_ARR), nn)
+        for name, term in extra:
+            x = ev(term); d[name] = x.as_long() if hasattr(x, "as_long") else str(x)
+        return d
+    return w
+
+def install_reader_contracts(eng):
+    """call-site forms used inside the reader: HdlcFrame.__init__ / append through their contracts (proved in frame_obligations)"""
+    def apply_append(e, st, args, ctx, node):
+        fr, byte = args; d, ffc, hd = frame_parts(st, fr)
+        ctx.oblige(st, "pre:HdlcFrame.append(frame_inv)", frame_inv_z3(st, fr), node)
+        be, okb = fit(byte, 8)
+        ctx.oblige(st, "pre:HdlcFrame.append(0<=byte<=255)", okb, node)
+        arr2 = z3.Store(d.arr, d.n, be); n2 = z3.simplify(d.n + 1)
+        crc2 = fresh("crc", S.BV16); st.pc.append(crc2 == S.FOLD(arr2, 0, n2))
+        st.setf(fr, "_frame_data", SBytes(arr2, n2)); st.setf(ffc, "_crc_value", SBV(crc2))
+        st.setf(hd, "_control_position", SOpt(S.CP(arr2, n2) == -1, S.CP(arr2, n2)))
+        st.setf(hd, "_is_header_good", SOpt(fresh("hgn", z3.BoolSort()), fresh("hg", I)))
+        return [(st, None)]
+    eng.contracts[H + "HdlcFrame.append"] = Contract(apply=apply_append)
+    def apply_frame_init(e, st, args, ctx, node):
+        fr = args[0]; arr = fresh("fdata", BYTE_ARR)
+        ffc = st.new_obj(FQ[:-1], {"_crc_value": SBV(z3.BitVecVal(0xFFFF, 16))})
+        hd = st.new_obj(H + "HdlcFrameHeader", {"_frame": fr, "_control_position": None, "_is_header_good": None})
+        st.heap[fr.oid][1].update({"_frame_data": SBytes(arr, 0), "_ffc": ffc, "_escape_next": False, "_header": hd})
+        return [(st, None)]
+    eng.contracts[H + "HdlcFrame.__init__"] = Contract(apply=apply_frame_init)
+    def apply_extend(e, st, args, ctx, node):
+        """_ReaderBuffer.extend(chunk) where (ghost) chunk == G[g_total_before : g_total_before + len(chunk)]: the view on G grows"""
+        buf, ch = args; b = st.getf(buf, "_buffer")
+        if not (isinstance(ch, SBytes) and st.ghost.get("chunk_is_stream_segment") is not None): raise Unsupported("extend outside read()")
+        gt_before, gt_after = st.ghost["chunk_is_stream_segment"]
+        if z3.is_int_value(z3.simplify(b.n)) and z3.simplify(b.n).as_long() == 0:
+            st.setf(buf, "_buffer", SBytes(G, ch.n, gt_before))
+        else:
+            ctx.oblige(st, "pre:extend(buffer view ends at the stream position)", z3.And(z3.BoolVal(b.arr.eq(G)), b.off + b.n == gt_before), node)
+            st.setf(buf, "_buffer", SBytes(G, z3.simplify(b.n + ch.n), b.off))
+        return [(st, None)]
+    eng.contracts[H + "_ReaderBuffer.extend"] = Contract(apply=apply_extend)
+
+def reader_obligations(eng, configs=CONFIGS, methods=("_read_next", "read"), ghost=True):
+    """reader invariant preserved by _read_next (private helpers inlined) and by read() (which uses _read_next through its contract)"""
+    obls = []
+    l1, a1 = S.unstuff_lemmas(Obligation); l2, a2 = S.unstuff_content_lemmas(Obligation)
+    obls += l1 + l2
+    eng.prelude_axioms += [a1["unstuff_frame"], a1["cnt_bounds"], a2["unstuffed_at_frame"], a2["raw_length_bound"]]
+    install_reader_contracts(eng)
+    fn_rn, mod, cls = eng.funcs[R + "_read_next"]
+    # ---------------- _read_next: requires reader_inv and one unconsumed octet
+    def post_read_next(st1, rd, val, old):
+        v = reader_view(st1, rd); c = z3.simplify(to_bool(val))
+        res = []
+        if z3.is_true(c):
+            res.append(("returns True only with a current frame", z3.BoolVal(v["fr"] is not None)))
+            if v["fr"] is not None: res += reader_inv(st1, rd, completed=True)
+        elif z3.is_false(c): res += reader_inv(st1, rd)
+        else: raise Unsupported("_read_next result is not a definite bool on this path")
+        res.append(("consumes at least one octet (termination measure of read's loop)", z3.And(v["pl"] <= old["pl"] - 1, v["pl"] >= 0)))
+        res.append(("ghost stream length unchanged", z3.And(v["gt"] == old["gt"], v["gle"] == old["gle"])))
+        return res
+    if "_read_next" in methods:
+        for cfg in configs:
+            for in_frame in (False, True):
+                st = State(); rd, buf = mk_reader(st, cfg, in_frame, eng=eng); assume_inv(st, rd)
+                v0 = reader_view(st, rd); st.pc.append(v0["pl"] >= 1)
+                old = {"pl": v0["pl"], "gt": v0["gt"], "gle": v0["gle"]}
+                ctx = Ctx(eng, mod, cls, R + "_read_next", root_name=f"{R}_read_next[{cfg_label(cfg, in_frame)}]"); ctx.verifying = R + "_read_next"
+                st.locals = {"self": rd}
+                n0 = len(ctx.obls)
+                for st1, flow, val in eng.exec_block(fn_rn.body, st, ctx):
+                    eng.stats["paths"] += 1
+                    if not eng.feasible(st1): continue
+                    if flow == RAISE:
+                        ctx.oblige(st1, f"raises:nothing escapes ({val.exc})", z3.BoolVal(False), fn_rn); continue
+                    for name, g in post_read_next(st1, rd, val, old): ctx.oblige(st1, f"post:{name}", g, fn_rn)
+                for o in ctx.obls[n0:]: o.meta.update(replay="replay_read_next", witness=reader_witness(eng, cfg, in_frame))
+                obls += ctx.obls
+    # call-site form of _read_next for read(): assert pre, havoc the reader, assume post
+    def apply_read_next(e, st, args, ctx, node):
+        rd = args[0]; v0 = reader_view(st, rd)
+        for name, g in reader_inv(st, rd): ctx.oblige(st, f"pre:_read_next({name})", g, node)
+        ctx.oblige(st, "pre:_read_next(an octet is available)", v0["pl"] >= 1, node)
+        cfg = (st.getf(rd, "_use_octet_stuffing"), st.getf(rd, "_use_abort_sequence"))
+        outs = []
+        for shape, result in (("hunt", False), ("frame", False), ("frame", True)):
+            s2 = st.fork(); tag = f"__c{next(_calls)}"
+            rd2, buf2 = mk_reader(s2, cfg, shape == "frame", tag=tag, eng=e)
+            # same objects identities are not needed: read() reaches the reader through self only; move the new state onto self
+            s2.heap[rd.oid] = (s2.heap[rd2.oid][0], s2.heap[rd2.oid][1]); del s2.heap[rd2.oid]
+            assume_inv(s2, rd, completed=result)
+            v1 = reader_view(s2, rd)
+            s2.pc += [v1["pl"] <= v0["pl"] - 1, v1["pl"] >= 0, v1["gt"] == v0["gt"], v1["gle"] == v0["gle"]]
+            outs.append((s2, result))
+        return outs
+    eng.contracts[R + "_read_next"] = Contract(apply=apply_read_next)
+    if "read" in methods:
+        fn_rd = eng.funcs[R + "read"][0]
+        for cfg in configs:
+            for in_frame in (False, True):
+                st = State(); rd, buf = mk_reader(st, cfg, in_frame, eng=eng); assume_inv(st, rd)
+                v0 = reader_view(st, rd); st.pc.append(v0["pl"] == 0)          # read() leaves nothing unconsumed (its own postcondition)
+                carr = z3.Const("chunk", BYTE_ARR); cn = z3.Int("cn"); k = z3.Int("k__c")
+                if not any(str(cn) == str(x) for x in eng.len_vars): eng.len_vars.append(cn)
+                st.pc += [cn >= 0, z3.ForAll([k], z3.Implies(z3.And(0 <= k, k < cn), carr[k] == G[v0["gt"] + k]))]   # the chunk is the next segment of the stream
+                gt0, gle0 = v0["gt"], v0["gle"]
+                root = f"{R}read[{cfg_label(cfg, in_frame)}]"
+                ctx = Ctx(eng, mod, cls, R + "read", root_name=root); ctx.verifying = R + "read"
+                st.locals = {"self": rd, "data_chunk": SBytes(carr, cn)}
+                appended = []
+                def hook(st_, lst, item, ctx_, node_, rd=rd, appended=appended):
+                    # obligations on every frame put into the result list: it is the reader's current frame in the 'completed' state
+                    ok = isinstance(item, Ref) and st_.getf(rd, "_frame") == item
+                    ctx_.oblige(st_, "post:returned object is the frame just completed", z3.BoolVal(ok), node_)
+                    if ok:
+                        for name, g in reader_inv(st_, rd, completed=True): ctx_.oblige(st_, f"post:returned frame: {name}", g, node_)
+                        v = reader_view(st_, rd)
+                        st_.setf(rd, "$g_last_end", SInt(v["gp"] - 1))      # ghost update: index of the closing flag
+                        st_.ghost["appended"] = st_.ghost.get("appended", ()) + (item,)
+                eng.list_append_hook = hook
+                def havoc(st_h, e, rd=rd, cfg=cfg, gt0=gt0, cn=cn):
+                    outs = []
+                    for shape in (False, True):
+                        s2 = st_h.fork(); tag = f"__l{next(_calls)}"
+                        rd2, buf2 = mk_reader(s2, cfg, shape, tag=tag, eng=e)
+                        s2.heap[rd.oid] = (s2.heap[rd2.oid][0], s2.heap[rd2.oid][1]); del s2.heap[rd2.oid]
+                        s2.ghost["appended"] = ()
+                        outs.append(s2)
+                    return outs
+                def inv(st_, e, rd=rd, gt0=gt0, cn=cn, gle0=gle0):
+                    v = reader_view(st_, rd)
+                    not_aliased = z3.BoolVal(all(st_.getf(rd, "_frame") != x for x in st_.ghost.get("appended", ())))
+                    return list(reader_inv(st_, rd)) + [("ghost: stream length", v["gt"] == gt0 + cn), ("ghost: last end monotone", v["gle"] >= gle0),
+                                                        ("returned frames are no longer reachable from the reader", not_aliased)]
+                def dec(st_, e, rd=rd): return reader_view(st_, rd)["pl"]
+                eng.loop_specs[(R + "read", 0)] = (inv, dec, {}, havoc)
+                n0 = len(ctx.obls)
+                # ghost update at the call of extend: the stream grows by the chunk
+                st.setf(rd, "$g_total", SInt(gt0 + cn)); st.ghost["chunk_is_stream_segment"] = (gt0, gt0 + cn)
+                for st1, flow, val in eng.exec_block(fn_rd.body, st, ctx):
+                    eng.stats["paths"] += 1
+                    if not eng.feasible(st1): continue
+                    if flow == RAISE:
+                        ctx.oblige(st1, f"raises:nothing escapes ({val.exc})", z3.BoolVal(False), fn_rd); continue
+                    v = reader_view(st1, rd)
+                    for name, g in reader_inv(st1, rd): ctx.oblige(st1, f"post:{name}", g, fn_rd)
+                    ctx.oblige(st1, "post:every octet of the chunk has been consumed", v["pl"] == 0, fn_rd)
+                    ctx.oblige(st1, "post:C19 buffer retains no consumed octet: len(buffer) <= len(chunk)", v["b"].n <= cn, fn_rd)
+                    ctx.oblige(st1, "post:result is the list of completed frames", z3.BoolVal(isinstance(val, (GhostList, list))), fn_rd)
+                for o in ctx.obls[n0:]: o.meta.update(replay="replay_read", witness=reader_witness(eng, cfg, in_frame, extra=[("cn", cn)]), chunk=True)
+                obls += ctx.obls
+        eng.list_append_hook = None
+    return obls
+import itertools
+_calls = itertools.count()
+
+# ----------------------------------------------------------------------------- groups (each built and discharged in its own process)
+def group_frame(repo, want=("lemmas", "get_address", "init", "append", "valid", "accessors")):
+    eng = mk_engine(repo); obls = frame_obligations(eng, want=want)
+    return eng, obls, {}
+def group_reader(repo, cfg, methods=("_read_next", "read")):
+    eng = mk_engine(repo); frame_obligations(eng, want=())
+    obls = reader_obligations(eng, configs=[cfg], methods=methods)
+    return eng, obls, {}
+
+READER_FUNCS = [R + x for x in ("read", "_read_next", "_handle_flag_sequence", "_append_to_frame", "_start_frame", "_goto_hunt_mode")] + \
+               [H + "_ReaderBuffer." + x for x in ("is_available", "pop", "extend", "trim_buffer_to_current_position", "trim_buffer_to_flag_or_end")]
+
+def hdlc_result(repo, tier, frame_want, reader, select=None, budget_ms=12000):
+    """build the requested groups in parallel processes; `select(oid)` keeps the obligations a property is about"""
+    from pyvc import solve
+    from pyvc.run import PropResult
+    tasks = []
+    if frame_want is not None: tasks.append(("frame", group_frame, (repo, frame_want)))
+    if reader:
+        for cfg in CONFIGS: tasks.append((f"reader[{cfg_label(cfg, True).rsplit(',', 1)[0]}]", group_reader, (repo, cfg)))
+    res = solve.run_groups(tasks, budget_ms=budget_ms)
+    obls = []; undecided = []; seen = set(); stats = {}; derived = set()
+    for name, status, payload, info, st_, der in res:
+        if status != "ok":
+            undecided.append((name, payload)); continue
+        derived |= set(der)
+        for k, v in st_.items(): stats[k] = stats.get(k, 0) + v
+        for o in payload:
+            if o.oid in seen: continue
+            seen.add(o.oid)
+            if select is None or o.expect_refuted or o.kind in ("lemma", "canary") or select(o.oid): obls.append(o)
+    class _E: pass
+    e = _E(); e.stats = stats
+    r = PropResult(obls, e, derived=sorted(derived), undecided=undecided)
+    r.pre_discharged = True
+    return r
